@@ -584,3 +584,126 @@ def plans_mp11(F, R):
             R.ob('C01.plan', ok, {'machine': Facts.short(m.fe, 50), 'event': Facts.short(ev, 30), 'state': Facts.short(st, 40), 'plan': [(k, Facts.short(v, 50)) for k, v in got]})
             if not ok:
                 R.find('C01.plan', ('boost/msm/backmp11/detail/favor_runtime_speed.hpp', 'boost::msm::backmp11::detail::compile_policy_impl::dispatch_table'), 'plan', 'candidates generated for state %s on event %s are %s, the declarations give %s' % (Facts.short(st, 50), Facts.short(ev, 40), [(k, Facts.short(v, 60)) for k, v in got], [(k, Facts.short(v, 60)) for k, v in exp]), where=loc, instance='%s / %s / %s' % (Facts.short(m.fe, 80), Facts.short(st, 60), Facts.short(ev, 40)))
+
+@rule('plans_fct')
+def plans_fct(F, R):
+    """back + favor_compile_time: the run-time chains built by the dispatch_table constructor.  Rows: the transitions for which
+    init_cell::operator() is instantiated (the elements of the filtered view), in the order of the back-end table, pushed to the
+    front (=> last-declared tried first); default cells from the helper<deferred, composite> selected per state."""
+    M = Model(F)
+    from rules_core import backend_of
+    called = {}     # (fsm, event) -> set(transition type)
+    defaults = {}   # (fsm, event) -> {state: (deferred, composite)}
+    for f in F.funcs:
+        if not f.file.endswith('back/favor_compile_time.hpp') or not f.blocks: continue
+        da = f.cls_args('dispatch_table')
+        if not da or len(da) < 3: continue
+        key = (strip_cvref(str(da[0])), str(da[2]))
+        if f.cls == 'init_cell' and f.n == 'operator()':
+            if any(n.get('n') == 'init_event_base_case' for i, n in f.calls()):
+                called.setdefault(key, set()).add(strip_cvref(str((f.targs() or [''])[0])))
+        if f.cls == 'default_init_cell' and f.n == 'operator()':
+            st = strip_cvref(str((f.targs() or [''])[0]))
+            for i, n in f.calls():
+                if n.get('n') == 'execute' and n.get('pc') == 'helper':
+                    a = parse_type(F.strs[n['pt']])
+                    comps = components(F.strs[n['pt']])
+                    ha = comps[-1][1] if comps and comps[-1][1] else None
+                    if ha and len(ha) >= 2:
+                        defaults.setdefault(key, {})[st] = (ha[0].strip() in ('true', '1'), ha[1].strip() in ('true', '1'))
+    for f in F.funcs:
+        if f.cls != 'dispatch_table' or 'ctor' not in (f.d.get('sp') or '') or not f.file.endswith('back/favor_compile_time.hpp') or not f.blocks: continue
+        da = f.cls_args('dispatch_table')
+        fsm, ev_raw = strip_cvref(str(da[0])), str(da[2]); ev = strip_cvref(ev_raw)
+        m = M.machine_of(fsm)
+        if m is None: continue
+        rows = M.rows(m.fe)
+        if rows is None: continue
+        evrec = F.rec_by_type(ev)
+        if evrec and 'completion_event' in evrec['tds']: continue
+        R.seen(f); R.anchor('plan-table:back-fct')
+        stt = type_list(str(da[1])) or []
+        got = {}
+        for tr in stt:
+            if tr not in called.get((fsm, ev_raw), set()): continue
+            rec = F.rec_by_type(tr)
+            st = strip_cvref(F.strs[rec['tds']['current_state_type']]) if rec and 'current_state_type' in rec['tds'] else None
+            if st is None: continue
+            got.setdefault(st, []).insert(0, norm_transition(tr))      # push_front
+        dflt = defaults.get((fsm, ev_raw), {})
+        def match(trig):
+            trig = strip_cvref(trig)
+            return trig == ev or trig in M.bases_of(ev)
+        for st in M.states(m.fe):
+            sub = M.machine_of(st)
+            internal = [x for x in (M.rows(st, 'internal_transition_table') or []) if x['evt'] and match(x['evt'])] if not sub else []
+            own = [x for x in rows if strip_cvref(M.source_state(x) or '') == st and x['evt'] and match(x['evt'])]
+            exp = [('row', x['type']) for x in reversed(internal)] + [('row', x['type']) for x in reversed(own)]
+            deferred = ev in [strip_cvref(x) for x in M.deferred(st)]
+            exp_d = (deferred, bool(sub))
+            g = got.get(st, [])
+            okp = g == exp
+            okd = dflt.get(st) is None or dflt.get(st) == exp_d      # states the back-end table does not list get no default cell
+            R.ob('C01.plan', okp and okd, {'machine': Facts.short(m.fe, 50), 'event': Facts.short(ev, 30), 'state': Facts.short(st, 40), 'rows': [(k, Facts.short(v, 40)) for k, v in g], 'default(deferred,composite)': dflt.get(st)})
+            if not okp:
+                R.find('C01.plan', ('boost/msm/back/favor_compile_time.hpp', 'boost::msm::back::dispatch_table<favor_compile_time>'), 'plan', 'favor_compile_time chain for state %s on event %s holds %s, the declarations give %s' % (Facts.short(st, 50), Facts.short(ev, 40), [(k, Facts.short(v, 60)) for k, v in g], [(k, Facts.short(v, 60)) for k, v in exp]), where=f.loc, instance='%s / %s / %s' % (Facts.short(m.fe, 80), Facts.short(st, 60), Facts.short(ev, 40)))
+            if not okd:
+                R.find('C01.plan', ('boost/msm/back/favor_compile_time.hpp', 'boost::msm::back::dispatch_table<favor_compile_time>'), 'default-cell', 'default cell of state %s on event %s selected as (deferred, composite)=%s, the declarations give %s' % (Facts.short(st, 50), Facts.short(ev, 40), dflt.get(st), exp_d), where=f.loc, instance='%s / %s / %s' % (Facts.short(m.fe, 80), Facts.short(st, 60), Facts.short(ev, 40)))
+
+@rule('plans_mp11_table')
+def plans_mp11_table(F, R):
+    """backmp11 (all policies; favor_compile_time installs the cells in exactly this order): the back-end transition table
+    computed for each machine, grouped by (state, trigger), lists the declared rows last-declared first with the state's own
+    internal rows first; the favor_compile_time chain appends cells in table order and tries them front to back, the composite's
+    process_event first (shape rules)."""
+    M = Model(F)
+    from rules_core import backend_of
+    for r in F.records:
+        if r['n'] != 'transition_table_impl' or not r['loc'].startswith('boost/msm/backmp11/') or 'transition_table' not in r['tds']: continue
+        a = F.targs(r.get('a')) or []
+        if not a: continue
+        sm_t = strip_cvref(str(a[0]))
+        m = M.machine_of(sm_t)
+        if m is None: continue
+        rows = M.rows(m.fe)
+        if rows is None: continue
+        R.anchor('mp11-table')
+        tl = type_list(F.strs[r['tds']['transition_table']]) or []
+        got = {}
+        for tr in tl:
+            rec = F.rec_by_type(tr)
+            if not rec or 'current_state_type' not in rec['tds'] or 'transition_event' not in rec['tds']: continue
+            st = strip_cvref(F.strs[rec['tds']['current_state_type']]); ev = strip_cvref(F.strs[rec['tds']['transition_event']])
+            got.setdefault((st, ev), []).append(norm_mp11(tr))
+        exp = {}
+        for st in M.states(m.fe):
+            sub = M.machine_of(st)
+            internal = [] if sub else (M.rows(st, 'internal_transition_table') or [])
+            for x in reversed(internal):
+                if x['evt']: exp.setdefault((st, strip_cvref(x['evt'])), []).append(('row', x['type']))
+        for x in reversed(rows):
+            st = strip_cvref(M.source_state(x) or '')
+            if x['evt']: exp.setdefault((st, strip_cvref(x['evt'])), []).append(('row', x['type']))
+        for key in sorted(set(got) | set(exp)):
+            g, e = got.get(key, []), exp.get(key, [])
+            ok = g == e
+            R.ob('C01.plan', ok, {'machine': Facts.short(m.fe, 50), 'state': Facts.short(key[0], 40), 'trigger': Facts.short(key[1], 30), 'rows': len(g)})
+            if not ok:
+                R.find('C01.plan', ('boost/msm/backmp11/detail/transition_table.hpp', 'boost::msm::backmp11::detail::transition_table_impl'), 'table', 'back-end table rows for state %s and trigger %s are %s, the declarations give %s' % (Facts.short(key[0], 50), Facts.short(key[1], 40), [(k, Facts.short(v, 60)) for k, v in g], [(k, Facts.short(v, 60)) for k, v in e]), where=r['loc'], instance='%s / %s / %s' % (Facts.short(m.fe, 80), Facts.short(key[0], 60), Facts.short(key[1], 40)))
+    # shape of the favor_compile_time run-time chains
+    for f in F.funcs:
+        if not f.file.endswith('backmp11/favor_compile_time.hpp') or not f.blocks: continue
+        if f.n == 'add_transition_cell' and f.cls in ('transition_chain', 'internal_transition_chain'):
+            R.seen(f); R.anchor('fct-chain-add')
+            ops = [n.get('n') for i, n in f.calls() if n.get('obj') and f.base_member(n['obj']) == 'm_transition_cells']
+            ok = ops and all(o in ('emplace_back', 'push_back') for o in ops)
+            R.ob('C01.plan', bool(ok), {'func': f.q, 'ops': ops})
+            if not ok: R.find('C01.plan', f, 'chain-append', 'cells must be appended to the chain (table order = priority order); found %s' % ops)
+        if f.n == 'dispatch' and f.cls == 'state_dispatch_table':
+            R.seen(f); R.anchor('fct-state-dispatch')
+            order = f.linear_nodes()
+            sub = [i for i in order if f.nodes[i] and f.nodes[i]['k'] == 'call' and 'fk' not in f.nodes[i] and f.nodes[i].get('fn') and f.base_member(f.nodes[i]['fn']) == 'm_call_process_event']
+            find = [i for i in order if f.nodes[i] and f.nodes[i]['k'] == 'call' and f.nodes[i].get('n') == 'find']
+            ok = len(sub) == 1 and len(find) == 1 and order.index(sub[0]) < order.index(find[0])
+            R.ob('C01.plan', ok, {'func': f.q})
+            if not ok: R.find('C01.plan', f, 'submachine-first', 'the composite state\'s own process_event must be tried before the state\'s transition chain')
